@@ -78,9 +78,9 @@ func registerPure() {
 
 type retargetCase struct {
 	LimitBits uint32 `json:"limit_bits"`
-	Bits      uint32 `json:"bits"`      // bits of the window's blocks
-	Span      int64  `json:"span"`      // last.time - first.time
-	LastH     uint32 `json:"last_h"`    // height of the parent block
+	Bits      uint32 `json:"bits"`   // bits of the window's blocks
+	Span      int64  `json:"span"`   // last.time - first.time
+	LastH     uint32 `json:"last_h"` // height of the parent block
 	FirstT    uint32 `json:"first_time"`
 }
 
